@@ -87,6 +87,8 @@ def probe_source(crate, n, feats, fx):
         ops.append("decrypt")
         s += f'''    {{
         let k = key::<Local>("{fx["local_key"]}");
+        report("local-key-text", k.expose_key().to_string() == "{fx["local_text"]}", &k.expose_key().to_string());
+        report("local-key-parse", "{fx["local_text"]}".parse::<Key<V, Local>>().map(|p| p.expose_key().as_raw_bytes() == k.expose_key().as_raw_bytes()).unwrap_or(false), "full-build key text parses in the reduced build");
         let t: paseto_core::EncryptedToken<V, M, Vec<u8>> = "{fx["token_local"]}".parse().expect("full-build token parses");
         match t.decrypt(&k, &NoValidation::dangerous_no_validation()) {{
             Ok(u) => report("decrypt", u.claims.0 == hexd(MSG) && u.footer == hexd(FOOTER), "claims/footer compared"),
@@ -111,7 +113,8 @@ def probe_source(crate, n, feats, fx):
             Ok(u) => report("verify", u.claims.0 == hexd(MSG) && u.footer == hexd(FOOTER), "claims/footer compared"),
             Err(e) => report("verify", false, &format!("{{e}}")),
         }}
-        report("public-key-text", k.to_string().starts_with("k{n}.public."), "");
+        report("public-key-text", k.to_string() == "{fx["public_text"]}", &k.to_string());
+        report("public-key-parse", "{fx["public_text"]}".parse::<Key<V, Public>>().map(|p| p.to_string() == "{fx["public_text"]}").unwrap_or(false), "full-build key text parses in the reduced build");
     }}
 '''
     if "signing" in f:
@@ -121,6 +124,7 @@ def probe_source(crate, n, feats, fx):
         let t = paseto_core::UnsignedToken::<V, M>::new(M(hexd(MSG))).with_footer(hexd(FOOTER)).sign(&k).expect("sign");
         println!("OUT TOKEN_PUBLIC {{}}", t);
         report("public_key()", k.public_key().expose_key().as_raw_bytes() == &hexd("{fx["public_key"]}")[..], "");
+        report("secret-key-text", k.expose_key().to_string() == "{fx["secret_text"]}", "secret key text differs from the full build's");
     }}
 '''
     if "id" in f:
